@@ -291,10 +291,34 @@ class Module:
                 for a in st.names:
                     self.imports[a.asname or a.name] = ("from", st.module, a.name)
 
-    def all_funcs(self) -> Iterator[Func]:
-        yield from self.functions.values()
+    def all_funcs(self, nested: bool = True) -> Iterator[Func]:
+        """module functions and methods; with ``nested`` also the functions defined inside them (named `outer.inner`, sharing the
+        class of the enclosing method: closures use its `self`).  The per-function walkers skip nested definitions, so without this
+        the code inside a closure would be analysed by nobody."""
+        tops = list(self.functions.values())
         for c in self.classes.values():
-            yield from c.methods.values()
+            tops.extend(c.methods.values())
+        for f in tops:
+            yield f
+            if nested:
+                yield from self._nested_of(f)
+
+    def _nested_of(self, f: Func) -> Iterator[Func]:
+        cache = self.__dict__.setdefault("_nested_cache", {})
+        if id(f.node) not in cache:
+            out = []
+
+            def rec(node, prefix):
+                for ch in ast.iter_child_nodes(node):
+                    if isinstance(ch, (ast.FunctionDef, ast.AsyncFunctionDef)):
+                        g = Func(f"{prefix}.{ch.name}", ch, self, f.cls)
+                        out.append(g)
+                        rec(ch, g.name)
+                    elif not isinstance(ch, (ast.ClassDef, ast.Lambda)):
+                        rec(ch, prefix)
+            rec(f.node, f.name)
+            cache[id(f.node)] = out
+        return iter(cache[id(f.node)])
 
     def line(self, node) -> int:
         return getattr(node, "lineno", 0)
